@@ -4,7 +4,7 @@
    write_rpu_data mirrors read_rpu_data), the NAL-level escaping theorems, and the executable
    model evaluated on the two witnesses that used to break the property. *)
 From Coq Require Import List NArith ZArith Bool String.
-From DV Require Import Outcome Bits Escape BitIO Fields Blocks Rpu Tables FieldsProofs HeaderRT MappingRT RpuRT.
+From DV Require Import Outcome Bits Escape BitIO Fields Blocks Rpu Tables FieldsProofs HeaderRT MappingRT RpuRT RpuRTExample.
 From DVgen Require Import Consts_gen Blocks_gen DmData_gen Switches_gen.
 Import ListNotations.
 Open Scope N_scope.
@@ -70,6 +70,36 @@ Theorem C01_rpu_roundtrip : forall sw data x,
   forall p out, write_rpu_data p sw x = Ok out -> out = data.
 Proof. exact rpu_roundtrip. Qed.
 
+(* non-vacuity: the repository's profile 7 FEL sample (polynomial and MMR curves, NLQ, DM blocks)
+   is accepted, meets the side conditions (decidable form, sound) and is written back *)
+Theorem C01_side_conditions_decidable : forall x, side_conditionsb x = true -> rpu_side_conditions x.
+Proof. exact side_conditionsb_sound. Qed.
+
+Example C01_sample_meets_hypotheses :
+  forallb is_byte fel_sample = true /\
+  match parse_inner Debug src_sw fel_sample with
+  | Ok x => side_conditionsb x = true /\ write_rpu_data Debug src_sw x = Ok fel_sample
+  | _ => False
+  end.
+Proof. exact fel_sample_roundtrips. Qed.
+
+(* the same at the entry points: raw RPU (any accepted start-code / NAL-header prefix) and HEVC
+   UNSPEC62 NAL: the payload comes back in prefix-less, emulation-prevention-free form, and in
+   escaped form (behind the 7C 01 header) when the input was canonically escaped *)
+Theorem C01_parse_rpu_roundtrip : forall sw data x,
+  parse_rpu Debug sw data = Ok x -> forallb is_byte data = true -> rpu_side_conditions x ->
+  exists d, validated_trimmed_data data = Ok d /\
+    forall p out, write_rpu p sw x = Ok out -> out = d.
+Proof. exact parse_rpu_roundtrip. Qed.
+
+Theorem C01_parse_nalu_roundtrip : forall sw data x,
+  parse_unspec62_nalu Debug sw data = Ok x -> forallb is_byte data = true -> rpu_side_conditions x ->
+  exists d, validated_trimmed_data data = Ok d /\
+    (forall p out, write_rpu p sw x = Ok out -> out = unescape d) /\
+    (canonically_escaped d = true ->
+     forall p out, write_hevc_unspec62_nalu p sw x = Ok out -> out = 124 :: 1 :: d).
+Proof. exact parse_nalu_roundtrip. Qed.
+
 (* the parts, each in the stronger form "the writer returns, and appends exactly the bits read" *)
 Theorem C01_header_roundtrip : forall r h r',
   parse_header Debug r = Ok (h, r') ->
@@ -106,5 +136,6 @@ Proof. vm_compute. reflexivity. Qed.
 
 Print Assumptions C01_fields_roundtrip.
 Print Assumptions C01_rpu_roundtrip.
+Print Assumptions C01_parse_nalu_roundtrip.
 Print Assumptions C01_ue_roundtrip.
 Print Assumptions C01_block_tables_symmetric.
